@@ -15,6 +15,25 @@
 //                                                        -> restart m' info niter ret nfl flags.. leftsame lenok inspan blockok eigok | norms(m') | W'(n*m')
 //         blockok = the columns the recorded HouseholderQR kernel appended are orthonormal AMONG THEMSELVES (unit norm, |q_i . q_j| <= 1e-8):
 //         the Q factor of a Householder QR has this property for EVERY input block, rank deficient or not (a zero or non-unit column is not a Q factor)
+//   recall n nev max init corr rule maxit tol  pinfo pniter  mb B(n*mb) mw W(n*mw)  kp th(kp) X(n*kp) R(n*kp)  nfl flags(nfl)  A(n*n)  g G(n*g)  ok2 k2 th2(k2) Y2(k2*k2)
+//         a call with maxit in {0, 1} on a USED solver object: the model's computeWithGuess starts from the state the previous call on the same
+//         object left behind (basis, cached products, Ritz values / vectors, flags, info, niter), g = 0 means compute() (default space);
+//         SelfAdjointEigenSolver replayed from the recording (k2 = 0 when maxit = 0: the loop body never runs)
+//                                                        -> info niter ret nfl flags.. nev evals(bits, exact).. eigok | norms | W'(n*m')
+//
+// Shapes of use (audited against five blind spots shared by harnesses of this framework; counters hist_*, view_*, acc_*, edge_*):
+//   (1) HISTORIES on ONE solver object: every case replays its own call and then 3 more calls (other rule / maxit in {0,1,2,3,100} / tol,
+//       compute() <-> compute_with_guess(), also after NotConverging and after a throwing call) on the same object; every result must be
+//       BIT-IDENTICAL (accessors and all internal members) to a FRESH object given the same last call, and then satisfies the property
+//       predicate of THAT call (mechanism tags computed from prefix runs of that call);
+//   (2) the guess matrix passed as a block of a larger matrix, a Map with outer stride, a const Ref, a Map with inner stride (temporary inside
+//       the Ref), with canaries around the view; the operator's matrix as a block / outer-stride Map (dense; strictly upper triangle poisoned:
+//       Uplo = Lower never reads it) and as a Map / uncompressed matrix (sparse): bitwise equal to the owning-matrix run;
+//   (3) eigenvalues() / eigenvectors() / info() / num_iterations() called three times in random orders after every call;
+//   (4) the caller's guess matrix, rule, maxit, tol (after the call) and nev, nvec_init, nvec_max (after construction) live on the heap and are
+//       overwritten and freed before the accessors are queried (ASan sees a member that kept a reference);
+//   (5) edge share: nev in {1, n-1} x four rules x maxit in {0, 1, 100} x sizes {2-argument ctor, smallest legal (init = max = nev), init = nev
+//       and max = nev + corr}, n in 4..8 (thorough ..14).
 // Eigen assertions are turned into exceptions so that an assertion failure is a recorded outcome, not a dead harness.
 #include <stdexcept>
 #include <string>
@@ -53,12 +72,14 @@ typedef SpectraVerifAccess AX;
 static const char* RN[9] = {"LargestMagn", "LargestReal", "LargestImag", "LargestAlge", "SmallestMagn", "SmallestReal", "SmallestImag", "SmallestAlge", "BothEnds"};
 static const char* CLS[12] = {"diagdom", "dense", "blockdiag", "decoupled", "diagonal", "clustered", "exactritz", "graded", "arrowhead", "bordered", "twin", "arrowblock"};
 static const long STRUCT_BASE = 1000000;   // case indices >= STRUCT_BASE: the structured share (gen_struct_case)
+static const long EDGE_BASE = 2000000;     // case indices >= EDGE_BASE: the edge share (gen_edge_case)
 static const char* GK[4] = {"default", "orthonormal", "nonorthonormal", "dependent"};
 
 struct Case {
     long idx = 0; int cls = 0; int n = 0; int nev = 1; bool two_arg = true; long nvec_init = 0, nvec_max = 0; int rule = 0; int maxit = 100; double tol = 1e-8;
     bool sparse = false; int gkind = 0; Mat A; Mat G; long mx = -1, in = -1, co = -1;   // sizes after the constructor
     bool structured = false; std::vector<int> hubs; int defn = 0;   // structured share: hub coordinates, definiteness (0 positive, 1 negative, 2 indefinite)
+    bool edge = false; int wide_guess = 0;   // edge share (gen_edge_case); wide_guess > 0: corpus history that ends with a user space of that many (> max) columns
 };
 
 static std::string bits(const Mat& M) { std::string s; for (Index j = 0; j < M.cols(); j++) for (Index i = 0; i < M.rows(); i++) { s += ' '; s += str(dbits(M(i, j))); } return s; }
@@ -79,6 +100,29 @@ static std::string replay_json(const Case& c, uint64_t seed, const std::string& 
 // ------------------------------------------------------------------ generators
 static Mat sym_random(Rng& r, int n, double off) { Mat A(n, n); for (int i = 0; i < n; i++) for (int j = 0; j <= i; j++) { double v = (i == j) ? r.sym() : off * r.sym(); A(i, j) = v; A(j, i) = v; } return A; }
 
+// matrix of class `cls` (0..7), drawn from `r` (the draws of gen_case, in its order)
+static Mat gen_matrix(Rng& r, int cls, int n, int rule) {
+    Mat A = Mat::Zero(n, n);
+    switch (cls) {
+    case 0: { A = sym_random(r, n, 0.05); std::vector<int> p(n); for (int i = 0; i < n; i++) p[i] = i; for (int i = n - 1; i > 0; i--) std::swap(p[i], p[r.below(i + 1)]);
+              for (int i = 0; i < n; i++) A(i, i) = (double) (p[i] + 1) * (r.coin() ? 1.0 : 1.0) + 0.1 * r.sym(); if (r.coin(0.3)) A = -A; break; }
+    case 1: { A = sym_random(r, n, 1.0); break; }
+    case 2: { int b = r.range(1, std::max(1, n / 2)); Mat B1 = sym_random(r, b, 1.0), B2 = sym_random(r, n - b, 0.3); for (int i = 0; i < n - b; i++) B2(i, i) += i; A.topLeftCorner(b, b) = B1; A.bottomRightCorner(n - b, n - b) = B2; break; }
+    case 3: { A = sym_random(r, n, 0.2); for (int i = 0; i < n; i++) A(i, i) = i + 1 + 0.25 * r.sym();   // one exactly decoupled coordinate whose diagonal is extreme for the rule
+              int k = (int) r.below(n); for (int i = 0; i < n; i++) if (i != k) { A(i, k) = 0; A(k, i) = 0; }
+              double big = (double) (n + 3 + r.range(0, 3)); A(k, k) = (rule == 0 || rule == 3) ? big : (rule == 7 ? -big : 0.015625 * r.range(0, 1)); break; }
+    case 4: { for (int i = 0; i < n; i++) A(i, i) = r.coin(0.2) ? (double) r.range(-3, 3) : 4 * r.sym(); break; }
+    case 5: { A = sym_random(r, n, 0.02); for (int i = 0; i < n; i++) A(i, i) = (double) (i / 3) + 1e-3 * r.sym() * (r.coin() ? 1 : 0); break; }
+    case 6: { // exact Ritz vectors: a 2x2 / 3x3 leading block decoupled from the rest, block holds the wanted end of the spectrum
+              A = sym_random(r, n, 0.3); for (int i = 0; i < n; i++) A(i, i) = i + 1; int b = r.range(1, std::min(3, n - 2));
+              std::vector<int> ids; for (int i = 0; i < b; i++) ids.push_back((rule == 0 || rule == 3) ? n - 1 - i : i);
+              for (int id : ids) for (int j = 0; j < n; j++) { bool in = std::find(ids.begin(), ids.end(), j) != ids.end(); if (!in) { A(id, j) = 0; A(j, id) = 0; } }
+              for (int id : ids) A(id, id) += (rule == 0 || rule == 3) ? 5.0 : (rule == 7 ? -5.0 : -A(id, id) + 0.01 * (id + 1)); break; }
+    default: { A = sym_random(r, n, 1.0); for (int i = 0; i < n; i++) { double s = std::pow(10.0, -6.0 * i / n); A.row(i) *= s; A.col(i) *= s; } break; }
+    }
+    return A;
+}
+
 static Case gen_case(uint64_t seed, long idx, bool thorough) {
     Rng r(seed, 15, (uint64_t) idx); Case c; c.idx = idx;
     static const int rules[4] = {0, 3, 4, 7};
@@ -88,24 +132,7 @@ static Case gen_case(uint64_t seed, long idx, bool thorough) {
     int n = c.n;
     c.rule = rules[r.below(4)];
     c.sparse = r.coin(0.4);
-    Mat A = Mat::Zero(n, n);
-    switch (c.cls) {
-    case 0: { A = sym_random(r, n, 0.05); std::vector<int> p(n); for (int i = 0; i < n; i++) p[i] = i; for (int i = n - 1; i > 0; i--) std::swap(p[i], p[r.below(i + 1)]);
-              for (int i = 0; i < n; i++) A(i, i) = (double) (p[i] + 1) * (r.coin() ? 1.0 : 1.0) + 0.1 * r.sym(); if (r.coin(0.3)) A = -A; break; }
-    case 1: { A = sym_random(r, n, 1.0); break; }
-    case 2: { int b = r.range(1, std::max(1, n / 2)); Mat B1 = sym_random(r, b, 1.0), B2 = sym_random(r, n - b, 0.3); for (int i = 0; i < n - b; i++) B2(i, i) += i; A.topLeftCorner(b, b) = B1; A.bottomRightCorner(n - b, n - b) = B2; break; }
-    case 3: { A = sym_random(r, n, 0.2); for (int i = 0; i < n; i++) A(i, i) = i + 1 + 0.25 * r.sym();   // one exactly decoupled coordinate whose diagonal is extreme for the rule
-              int k = (int) r.below(n); for (int i = 0; i < n; i++) if (i != k) { A(i, k) = 0; A(k, i) = 0; }
-              double big = (double) (n + 3 + r.range(0, 3)); A(k, k) = (c.rule == 0 || c.rule == 3) ? big : (c.rule == 7 ? -big : 0.015625 * r.range(0, 1)); break; }
-    case 4: { for (int i = 0; i < n; i++) A(i, i) = r.coin(0.2) ? (double) r.range(-3, 3) : 4 * r.sym(); break; }
-    case 5: { A = sym_random(r, n, 0.02); for (int i = 0; i < n; i++) A(i, i) = (double) (i / 3) + 1e-3 * r.sym() * (r.coin() ? 1 : 0); break; }
-    case 6: { // exact Ritz vectors: a 2x2 / 3x3 leading block decoupled from the rest, block holds the wanted end of the spectrum
-              A = sym_random(r, n, 0.3); for (int i = 0; i < n; i++) A(i, i) = i + 1; int b = r.range(1, std::min(3, n - 2));
-              std::vector<int> ids; for (int i = 0; i < b; i++) ids.push_back((c.rule == 0 || c.rule == 3) ? n - 1 - i : i);
-              for (int id : ids) for (int j = 0; j < n; j++) { bool in = std::find(ids.begin(), ids.end(), j) != ids.end(); if (!in) { A(id, j) = 0; A(j, id) = 0; } }
-              for (int id : ids) A(id, id) += (c.rule == 0 || c.rule == 3) ? 5.0 : (c.rule == 7 ? -5.0 : -A(id, id) + 0.01 * (id + 1)); break; }
-    default: { A = sym_random(r, n, 1.0); for (int i = 0; i < n; i++) { double s = std::pow(10.0, -6.0 * i / n); A.row(i) *= s; A.col(i) *= s; } break; }
-    }
+    Mat A = gen_matrix(r, c.cls, n, c.rule);
     c.A = A;
     // nev and sizes
     c.nev = r.coin(0.7) ? r.range(1, std::max(1, n / 3)) : r.range(1, n - 1);
@@ -201,26 +228,88 @@ static Mat make_struct_guess(Rng& r, const Case& c, int g) {
     return G;
 }
 
+// ------------------------------------------------------------------ edge share: configuration-dependent guards
+// period 72 = {LargestMagn, LargestAlge, SmallestMagn, SmallestAlge} x nev in {1, n-1} x maxit in {0, 1, 100} x sizes {2-argument constructor,
+// smallest legal (nvec_init = nvec_max = nev), nvec_init = nev and nvec_max = nev + correction size}; small n so that the space reaches n
+static Case gen_edge_case(uint64_t seed, long i, bool thorough) {
+    Rng r(seed, 1530, (uint64_t) i); Case c; c.idx = EDGE_BASE + i; c.edge = true;
+    static const int rules[4] = {0, 3, 4, 7};
+    static const int maxits[3] = {0, 1, 100};
+    c.rule = rules[i % 4];
+    const int nevk = (int) ((i / 4) % 2), mk = (int) ((i / 8) % 3), sk = (int) ((i / 24) % 3);
+    c.n = r.range(4, thorough ? 14 : 8); const int n = c.n;
+    c.cls = (int) r.below(8);
+    c.sparse = r.coin(0.4);
+    c.A = gen_matrix(r, c.cls, n, c.rule);
+    c.nev = nevk == 0 ? 1 : n - 1;
+    c.maxit = maxits[mk];
+    if (sk == 0) { c.two_arg = true; c.nvec_init = 2 * c.nev; c.nvec_max = 10 * c.nev; }
+    else { c.two_arg = false; c.nvec_init = c.nev; const long co = (2 * c.nev <= n) ? c.nev : std::min<long>(n / 3, n - c.nev); c.nvec_max = sk == 1 ? c.nev : c.nev + co; }
+    static const double tols[5] = {1e-5, 1e-6, 1e-7, 1e-8, 1e-10};
+    c.tol = tols[r.below(5)];
+    c.gkind = r.coin(0.6) ? 0 : 1;
+    c.G = Mat(n, 0);
+    return c;
+}
+
 struct Snap {   // state of a solver after compute*/compute_with_guess
     bool threw = false; std::string what; bool assert_fail = false;
     int info = 1; long ret = -1, niter = -1; Mat B, W, Y, X, R; Vec th; std::vector<int> flags; Vec evals; Mat evecs; bool acc_threw = false; std::string acc_what; Mat C; bool haveC = false; std::vector<long> init_rows;
 };
 
+static bool same_bits(const Mat& a, const Mat& b) { return a.rows() == b.rows() && a.cols() == b.cols() && (a.size() == 0 || std::memcmp(a.data(), b.data(), sizeof(double) * (size_t) a.size()) == 0); }
+static bool same_bitsv(const Vec& a, const Vec& b) { return a.size() == b.size() && (a.size() == 0 || std::memcmp(a.data(), b.data(), sizeof(double) * (size_t) a.size()) == 0); }
+// the members in which two snapshots differ bit for bit, comma separated ("" = identical): the public results first, then every internal member
+static std::string snap_diff(const Snap& a, const Snap& b) {
+    std::string d; auto add = [&](bool differs, const char* what) { if (differs) { if (!d.empty()) d += ","; d += what; } };
+    add(a.threw != b.threw || a.what != b.what, "raised");
+    add(a.info != b.info, "info()");
+    add(a.ret != b.ret, "return value");
+    add(a.niter != b.niter, "num_iterations()");
+    add(a.acc_threw != b.acc_threw, "accessor raised");
+    add(!same_bitsv(a.evals, b.evals), "eigenvalues()");
+    add(!same_bits(a.evecs, b.evecs), "eigenvectors()");
+    add(!same_bits(a.B, b.B), "m_search_space.m_basis_vectors");
+    add(!same_bits(a.W, b.W), "m_search_space.m_op_basis_product");
+    add(!same_bitsv(a.th, b.th), "m_ritz_pairs.m_values");
+    add(!same_bits(a.Y, b.Y), "m_ritz_pairs.m_small_vectors");
+    add(!same_bits(a.X, b.X), "m_ritz_pairs.m_vectors");
+    add(!same_bits(a.R, b.R), "m_ritz_pairs.m_residues");
+    add(a.flags != b.flags, "m_ritz_pairs.m_root_converged");
+    return d;
+}
+
+template <class Op> using Solver = Spectra::DavidsonSymEigsSolver<Op>;
+
+// constructor arguments live on the heap and are overwritten and freed as soon as the constructor has returned (blind spot 4)
+template <class Op>
+static std::unique_ptr<Solver<Op>> make_solver(Op& op, const Case& c) {
+    std::unique_ptr<Solver<Op>> sp;
+    std::unique_ptr<Index> pnev(new Index(c.nev)), pin(new Index(c.nvec_init)), pmx(new Index(c.nvec_max));
+    if (c.two_arg) sp.reset(new Solver<Op>(op, *pnev)); else sp.reset(new Solver<Op>(op, *pnev, *pin, *pmx));
+    *pnev = -77; *pin = -78; *pmx = -79; pnev.reset(); pin.reset(); pmx.reset();
+    return sp;
+}
+
+template <class S>
+static void take_state(const S& solver, Snap& s) {
+    s.info = (int) solver.info(); s.niter = (long) solver.num_iterations();
+    s.B = AX::basis(solver); s.W = AX::opbasis(solver); s.Y = AX::small(solver); s.X = AX::vectors(solver); s.R = AX::residues(solver); s.th = AX::values(solver);
+    auto& f = AX::flags(solver); s.flags.clear(); for (Index i = 0; i < f.size(); i++) s.flags.push_back(f[i] ? 1 : 0);
+}
+
 template <class Op>
 static Snap run_real(Op& op, const Case& c, int maxit) {
     Snap s;
     try {
-        std::unique_ptr<Spectra::DavidsonSymEigsSolver<Op>> sp;
-        if (c.two_arg) sp.reset(new Spectra::DavidsonSymEigsSolver<Op>(op, c.nev)); else sp.reset(new Spectra::DavidsonSymEigsSolver<Op>(op, c.nev, c.nvec_init, c.nvec_max));
+        auto sp = make_solver(op, c);
         auto& solver = *sp;
         try {
             if (c.gkind == 0) s.ret = (long) solver.compute((SortRule) c.rule, maxit, c.tol);
             else s.ret = (long) solver.compute_with_guess(c.G, (SortRule) c.rule, maxit, c.tol);
         } catch (const VhAssert& e) { s.threw = true; s.assert_fail = true; s.what = e.what(); }
         catch (const std::exception& e) { s.threw = true; s.what = e.what(); }
-        s.info = (int) solver.info(); s.niter = (long) solver.num_iterations();
-        s.B = AX::basis(solver); s.W = AX::opbasis(solver); s.Y = AX::small(solver); s.X = AX::vectors(solver); s.R = AX::residues(solver); s.th = AX::values(solver);
-        auto& f = AX::flags(solver); for (Index i = 0; i < f.size(); i++) s.flags.push_back(f[i] ? 1 : 0);
+        take_state(solver, s);
         try { if (s.th.size() >= AX::corrsz(solver) && s.R.cols() >= AX::corrsz(solver) && s.R.rows() == c.n) { s.C = solver.calculate_correction_vector(); s.haveC = true; } } catch (const std::exception&) {}
         try { Mat I0 = solver.setup_initial_search_space((SortRule) c.rule); for (Index k = 0; k < I0.cols(); k++) { long row = -1; for (Index i = 0; i < I0.rows(); i++) if (I0(i, k) == 1.0) row = (long) i; s.init_rows.push_back(row); } } catch (const std::exception&) {}
         try { s.evals = solver.eigenvalues(); s.evecs = solver.eigenvectors(); }
@@ -234,82 +323,70 @@ static bool all_finite(const Mat& M) { for (Index j = 0; j < M.cols(); j++) for 
 static LD rule_key(int rule, double x) { switch (rule) { case 0: return -std::fabs((LD) x); case 3: return -(LD) x; case 4: return std::fabs((LD) x); default: return (LD) x; } }
 
 // ------------------------------------------------------------------ the property's oracle on one finished run
-static void oracle(const Case& c, const Snap& s, Out& out, uint64_t seed, const std::string& tier, bool zero_denom, bool in_span, bool block_ok) {
-    const int n = c.n; const int nev = c.nev;
+// out == nullptr: dry run (nothing written or counted); returns the number of failures.  `extra` = further replay keys (history position ...).
+static int oracle(const Case& c, const Snap& s, Out* out, uint64_t seed, const std::string& tier, bool zero_denom, bool in_span, bool block_ok, const std::string& extra = "") {
+    const int n = c.n; const int nev = c.nev; int nf = 0;
+    auto fail = [&](const std::string& sig, const std::string& what, const std::string& rj) { nf++; if (out) out->fail(sig, what, rj); };
     // mechanism tags used by known-finding matching (computed, not assumed)
     LD gdev = 0; if (c.gkind != 0) { for (Index i = 0; i < c.G.cols(); i++) for (Index j = 0; j < c.G.cols(); j++) { LD d = 0; for (int k = 0; k < n; k++) d += (LD) c.G(k, i) * (LD) c.G(k, j); gdev = std::max(gdev, std::fabs(d - (i == j ? 1.0L : 0.0L))); } }
     std::ostringstream ex; ex << ",\"guess_orthonormal\":" << (gdev <= 1e-8L ? 1 : 0) << ",\"zero_denominator_seen\":" << (zero_denom ? 1 : 0) << ",\"degenerate_correction_seen\":" << (in_span ? 1 : 0) << ",\"extension_block_orthonormal\":" << (block_ok ? 1 : 0) << ",\"final_space_lt_nev\":" << ((long) s.th.size() < nev ? 1 : 0) << ",\"flags_lt_nev\":" << ((long) s.flags.size() < nev ? 1 : 0)
-                              << ",\"initial_space_gt_max\":" << ((c.gkind == 0 ? c.in : (long) c.G.cols()) > c.mx ? 1 : 0) << ",\"info\":" << s.info << ",\"ret\":" << s.ret << ",\"raised\":\"" << jesc(s.threw ? s.what : std::string("")) << "\"";
+                              << ",\"initial_space_gt_max\":" << ((c.gkind == 0 ? c.in : (long) c.G.cols()) > c.mx ? 1 : 0)
+                              << ",\"guess_lt_initial_restart\":" << ((c.gkind != 0 && (long) c.G.cols() < c.in && (long) c.G.cols() + c.co > c.mx) ? 1 : 0) << ",\"info\":" << s.info << ",\"ret\":" << s.ret << ",\"raised\":\"" << jesc(s.threw ? s.what : std::string("")) << "\"" << extra;
     std::string rj = replay_json(c, seed, tier, ex.str());
     std::string tag = std::string(CLS[c.cls]) + "/" + GK[c.gkind] + "/" + RN[c.rule] + " n=" + str(n) + " nev=" + str(nev);
-    out.count("oracle_runs");
-    out.count(std::string("info_") + str(s.info));
-    if (s.threw) { out.count("oracle_threw"); out.fail(s.assert_fail ? "eigen-assert" : "exception", "compute on " + tag + " raised: " + s.what, rj); return; }
-    if (s.acc_threw) { out.fail("accessor-assert", "eigenvalues()/eigenvectors() after compute on " + tag + " (info=" + str(s.info) + ", Ritz pairs=" + str(s.th.size()) + ") raised: " + s.acc_what, rj); return; }
+    if (out) { out->count("oracle_runs"); out->count(std::string("info_") + str(s.info)); }
+    if (s.threw) { if (out) out->count("oracle_threw"); fail(s.assert_fail ? "eigen-assert" : "exception", "compute on " + tag + " raised: " + s.what, rj); return nf; }
+    if (s.acc_threw) { fail("accessor-assert", "eigenvalues()/eigenvectors() after compute on " + tag + " (info=" + str(s.info) + ", Ritz pairs=" + str(s.th.size()) + ") raised: " + s.acc_what, rj); return nf; }
     // finiteness whatever the outcome
     bool fin = true; for (Index i = 0; i < s.evals.size(); i++) if (!std::isfinite(s.evals[i])) fin = false;
     if (!all_finite(s.evecs)) fin = false;
-    if (!fin) { out.fail("nonfinite-output", "non-finite eigenvalues/eigenvectors returned (info=" + str(s.info) + ") on " + tag, rj); return; }
-    if (s.info != 0) return;
-    out.count("oracle_successful");
-    if (s.ret != nev) { out.fail("ret-ne-nev", "Successful but compute() returned " + str(s.ret) + " != nev on " + tag, rj); }
-    if (s.evals.size() != nev || s.evecs.cols() != nev) { out.fail("count-ne-nev", "Successful but " + str(s.evals.size()) + " eigenvalues returned on " + tag, rj); return; }
+    if (!fin) { fail("nonfinite-output", "non-finite eigenvalues/eigenvectors returned (info=" + str(s.info) + ") on " + tag, rj); return nf; }
+    if (s.info != 0) return nf;
+    if (out) out->count("oracle_successful");
+    if (s.ret != nev) { fail("ret-ne-nev", "Successful but compute() returned " + str(s.ret) + " != nev on " + tag, rj); }
+    if (s.evals.size() != nev || s.evecs.cols() != nev) { fail("count-ne-nev", "Successful but " + str(s.evals.size()) + " eigenvalues returned on " + tag, rj); return nf; }
     LD fro = 0; for (int i = 0; i < n; i++) for (int j = 0; j < n; j++) fro += (LD) c.A(i, j) * (LD) c.A(i, j); fro = std::sqrt(fro);
     for (int k = 0; k < nev; k++) {
         LD nx = 0; for (int i = 0; i < n; i++) nx += (LD) s.evecs(i, k) * (LD) s.evecs(i, k); nx = std::sqrt(nx);
         LD rr = 0; for (int i = 0; i < n; i++) { LD a = 0; for (int j = 0; j < n; j++) a += (LD) c.A(i, j) * (LD) s.evecs(j, k); a -= (LD) s.evals[k] * (LD) s.evecs(i, k); rr += a * a; } rr = std::sqrt(rr);
         // slack: rounding of the cached products / Ritz vectors, 64 * eps * n * ||A||_F * ||x||  (stated constant)
         LD slack = 64.0L * 2.220446049250313e-16L * n * (fro + 1.0L) * (nx + 1.0L);
-        if (!(rr < (LD) c.tol + slack)) { std::ostringstream w; w << "Successful but true residual ||A x - theta x|| = " << (double) rr << " >= tol = " << c.tol << " for pair " << k << " on " << tag; out.fail("true-residual", w.str(), rj); break; }
-        if (!(std::fabs(nx - 1.0L) <= 1e-8L)) { std::ostringstream w; w << "Successful but ||x_" << k << "|| = " << (double) nx << " on " << tag; out.fail("non-unit-vector", w.str(), rj); break; }
+        if (!(rr < (LD) c.tol + slack)) { std::ostringstream w; w << "Successful but true residual ||A x - theta x|| = " << (double) rr << " >= tol = " << c.tol << " for pair " << k << " on " << tag; fail("true-residual", w.str(), rj); break; }
+        if (!(std::fabs(nx - 1.0L) <= 1e-8L)) { std::ostringstream w; w << "Successful but ||x_" << k << "|| = " << (double) nx << " on " << tag; fail("non-unit-vector", w.str(), rj); break; }
     }
     for (int a = 0; a < nev; a++) for (int b = a + 1; b < nev; b++) { LD d = 0; for (int i = 0; i < n; i++) d += (LD) s.evecs(i, a) * (LD) s.evecs(i, b);
-        if (!(std::fabs(d) <= 1e-8L)) { std::ostringstream w; w << "Successful but x_" << a << " . x_" << b << " = " << (double) d << " on " << tag; out.fail("non-orthogonal-vectors", w.str(), rj); a = nev; break; } }
-    for (int k = 0; k + 1 < nev; k++) if (rule_key(c.rule, s.evals[k]) > rule_key(c.rule, s.evals[k + 1])) { out.fail("order", "returned eigenvalues not ordered by " + std::string(RN[c.rule]) + " at position " + str(k) + " on " + tag, rj); break; }
+        if (!(std::fabs(d) <= 1e-8L)) { std::ostringstream w; w << "Successful but x_" << a << " . x_" << b << " = " << (double) d << " on " << tag; fail("non-orthogonal-vectors", w.str(), rj); a = nev; break; } }
+    for (int k = 0; k + 1 < nev; k++) if (rule_key(c.rule, s.evals[k]) > rule_key(c.rule, s.evals[k + 1])) { fail("order", "returned eigenvalues not ordered by " + std::string(RN[c.rule]) + " at position " + str(k) + " on " + tag, rj); break; }
+    return nf;
 }
 
+// ------------------------------------------------------------------ prefix runs (maxit = 1, 2, ...): per-iteration states through the REAL loop
+// (fresh object per prefix); detects restarts, exact zero denominators, degenerate correction blocks and checks the Q-factor specification
+struct Scan { std::vector<Snap> pre; bool zero_denom = false, in_span = false, any_restart = false, space_full = false, block_ok = true; std::string block_what; long block_iter = -1; };
+
 template <class Op>
-static void one_case(Op& op, Case& c, Out& out, uint64_t seed, const std::string& tier, bool corr) {
-    const int n = c.n;
-    // ---- constructor: sizes (exact correspondence with Gen.JD / Gen.Guard)
-    long mx = -1, in = -1, co = -1; bool ctor_threw = false;
-    try {
-        std::unique_ptr<Spectra::DavidsonSymEigsSolver<Op>> sp;
-        if (c.two_arg) sp.reset(new Spectra::DavidsonSymEigsSolver<Op>(op, c.nev)); else sp.reset(new Spectra::DavidsonSymEigsSolver<Op>(op, c.nev, c.nvec_init, c.nvec_max));
-        mx = AX::maxsz(*sp); in = AX::initsz(*sp); co = AX::corrsz(*sp);
-    } catch (const std::invalid_argument&) { ctor_threw = true; }
-    c.mx = mx; c.in = in; c.co = co;
-    if (corr) out.corr("sizes " + str(n) + " " + str(c.nev) + " " + str(c.nvec_init) + " " + str(c.nvec_max), ctor_threw ? "throw" : "ok " + str(mx) + " " + str(in) + " " + str(co));
-    if (ctor_threw) { out.count("ctor_throw"); return; }
-    if (in + co > n || mx > n || in < 1 || co < 1) { std::ostringstream ex; ex << ",\"max\":" << mx << ",\"init\":" << in << ",\"corr\":" << co; if (in < 1 || co < 1 || in + co > n) out.fail("sizes-guard", "constructor leaves sizes init=" + str(in) + " corr=" + str(co) + " max=" + str(mx) + " for n=" + str(n), replay_json(c, seed, tier, ex.str())); }
-    // ---- initial space supplied by the caller
-    if (c.gkind != 0) { Rng rg(seed, 1515, (uint64_t) c.idx); int g = (int) std::min<long>(n - 1, std::max<long>(co, in)); if (c.gkind == 3 && g < 2) c.gkind = 2; c.G = c.structured ? make_struct_guess(rg, c, g) : make_guess(rg, c.gkind, n, g); }
-    out.count(std::string("cls_") + CLS[c.cls]); out.count(std::string("guess_") + GK[c.gkind]); out.count(std::string("rule_") + RN[c.rule]); out.count(c.sparse ? "op_sparse" : "op_dense");
-    // ---- the full run
-    Snap fin = run_real(op, c, c.maxit);
-    if (fin.niter >= 0) out.count(fin.niter == 0 ? "iters_0" : fin.niter < 5 ? "iters_1_4" : fin.niter < 20 ? "iters_5_19" : "iters_20+");
-    // ---- prefix runs (maxit = 1, 2, ...): per-iteration states through the REAL loop; detect restarts and exact zero denominators
-    std::vector<Snap> pre; bool zero_denom = false; bool in_span = false; bool any_restart = false; bool space_full = false;
+static Scan scan_prefix(Op& op, const Case& c, const Snap& fin) {
+    Scan sc; const int n = c.n; const long co = c.co, mx = c.mx;
     int kmax = (int) std::min<long>(c.maxit, fin.niter >= 0 ? fin.niter + 1 : 1);
     Vec diag = c.A.diagonal();
-    bool push = true; long prev_size = -1; int prev_k = -1; bool block_ok = true; std::string block_what; long block_iter = -1;
+    bool push = true; long prev_size = -1; int prev_k = -1;
     for (int k = 1; k <= kmax; k++) {
         if (k > 30 && k % 5 != 0 && k != kmax) { push = false; continue; }    // later iterations are sampled (cost is quadratic in the iteration count)
         Snap p = run_real(op, c, k);
         if (std::getenv("C15_DEBUG")) { std::cerr << "maxit=" << k << " threw=" << p.threw << " " << p.what << " info=" << p.info << " niter=" << p.niter << " ret=" << p.ret << " size=" << p.B.cols() << " opcols=" << p.W.cols() << " orthdev=" << (p.B.transpose() * p.B - Mat::Identity(p.B.cols(), p.B.cols())).cwiseAbs().maxCoeff() << "\n  theta=" << p.th.transpose() << "\n  resnorm=" << p.R.colwise().norm() << "\n  xnorm=" << p.X.colwise().norm() << "\n"; }
         if (p.threw && !p.assert_fail) break;
         if (p.threw) push = false;     // the return expression asserted (flag array shorter than nev): state usable for the mechanism tags only
-        if (push) pre.push_back(p);
-        if (p.B.cols() >= n) space_full = true;
-        if (prev_size >= 0 && (long) p.B.cols() < prev_size) any_restart = true;
+        if (push) sc.pre.push_back(p);
+        if (p.B.cols() >= n) sc.space_full = true;
+        if (prev_size >= 0 && (long) p.B.cols() < prev_size) sc.any_restart = true;
         // specification of the HouseholderQR kernel on the real code: the co columns appended by extend_basis (no restart in between) are the
         // leading columns of a Q factor, orthonormal among themselves for EVERY input block (rank deficient or not, whatever the old columns are)
-        if (block_ok && !p.threw && prev_k == k - 1 && prev_size >= 0 && (long) p.B.cols() == prev_size + co && prev_size + co <= mx && all_finite(p.B)) {
+        if (sc.block_ok && !p.threw && prev_k == k - 1 && prev_size >= 0 && (long) p.B.cols() == prev_size + co && prev_size + co <= mx && all_finite(p.B)) {
             Mat Q = p.B.rightCols(co); Mat Gq = Q.transpose() * Q - Mat::Identity(co, co); double dev = Gq.cwiseAbs().maxCoeff();
-            if (!(dev <= 1e-8)) { block_ok = false; block_iter = k - 1; std::ostringstream w; w << "max|Q^T Q - I| = " << dev << ", column norms";
-                for (Index j = 0; j < Q.cols(); j++) w << " " << Q.col(j).norm(); block_what = w.str(); } }
+            if (!(dev <= 1e-8)) { sc.block_ok = false; sc.block_iter = k - 1; std::ostringstream w; w << "max|Q^T Q - I| = " << dev << ", column norms";
+                for (Index j = 0; j < Q.cols(); j++) w << " " << Q.col(j).norm(); sc.block_what = w.str(); } }
         prev_size = (long) p.B.cols(); prev_k = k;
-        if (p.info == 2 || k < kmax) for (Index kk = 0; kk < std::min<Index>(co, p.th.size()); kk++) for (int i = 0; i < n; i++) if (p.th[kk] - diag[i] == 0.0) zero_denom = true;
+        if (p.info == 2 || k < kmax) for (Index kk = 0; kk < std::min<Index>(co, p.th.size()); kk++) for (int i = 0; i < n; i++) if (p.th[kk] - diag[i] == 0.0) sc.zero_denom = true;
         if ((p.info == 2 || k < kmax) && p.B.cols() <= n && p.B.cols() > 0 && all_finite(p.B) && all_finite(p.R)) {   // DPR correction numerically inside the current search space (stagnation)?
             Eigen::HouseholderQR<Mat> qr(p.B); Mat Q = qr.householderQ() * Mat::Identity(n, p.B.cols());
             // is the block of DPR corrections, once projected against the space, numerically rank deficient relative to its
@@ -317,15 +394,203 @@ static void one_case(Op& op, Case& c, Out& out, uint64_t seed, const std::string
             Index cc = std::min<Index>(co, p.th.size()); Mat T(n, cc); bool fin_t = true;
             for (Index kk = 0; kk < cc; kk++) { Eigen::ArrayXd den = p.th[kk] - diag.array(); T.col(kk) = (den == 0.0).select(0.0, p.R.col(kk).array() / den).matrix(); if (!T.col(kk).allFinite()) fin_t = false; }   // the DPR correction as the library forms it (0 where theta == a_ii)
             if (fin_t && cc > 0) { double tmax = T.colwise().norm().maxCoeff(); Mat P = T - Q * (Q.transpose() * T); P -= Q * (Q.transpose() * P);
-                if (tmax == 0) in_span = true; else { Eigen::JacobiSVD<Mat> svd(P); double smin = svd.singularValues()(svd.singularValues().size() - 1); if (cc > n - p.B.cols() || smin <= 1e-6 * tmax) in_span = true; } }
+                if (tmax == 0) sc.in_span = true; else { Eigen::JacobiSVD<Mat> svd(P); double smin = svd.singularValues()(svd.singularValues().size() - 1); if (cc > n - p.B.cols() || smin <= 1e-6 * tmax) sc.in_span = true; } }
         }
         if (p.info != 2) break;
     }
-    if (any_restart) out.count("runs_with_restart"); if (space_full) out.count("runs_space_reaches_n"); if (zero_denom) out.count("runs_zero_denominator");
+    return sc;
+}
+
+// ------------------------------------------------------------------ histories on ONE solver object (blind spots 1, 3, 4 and the guess part of 2)
+struct Call { bool guess = false; int rule = 0; long maxit = 100; double tol = 1e-8; Mat G; int gkind = 0; int view = 0; };
+static const char* VW[6] = {"owning", "block", "map_outer_stride", "const_ref", "map_inner_stride", "owning"};
+static const uint64_t CANARY = 0x7ff8c15ac15ac15aULL;   // a quiet NaN with a payload: anything computed from it is NaN, and its bit pattern is recognisable
+
+static std::string call_text(const Call& k) {
+    std::ostringstream o; if (k.guess) o << "compute_with_guess(" << GK[k.gkind] << " " << k.G.rows() << "x" << k.G.cols() << " as " << VW[k.view] << ", "; else o << "compute(";
+    o << RN[k.rule] << ", " << k.maxit << ", " << k.tol << ")"; return o.str();
+}
+
+// one call on an EXISTING solver.  rule / maxit / tol and the guess live on the heap; they are overwritten (canary / other values) and freed
+// after the call has returned and BEFORE any accessor is queried.  The guess is handed over in the shape `k.view` asks for; `viewfail`
+// reports a canary next to the view (or the viewed entries themselves) that the call changed.
+template <class S>
+static Snap call_on(S& solver, const Call& k, int n, std::string& viewfail) {
+    Snap s; const double cv = bitsd(CANARY);
+    std::unique_ptr<SortRule> pr(new SortRule((SortRule) k.rule)); std::unique_ptr<Index> pm(new Index(k.maxit)); std::unique_ptr<double> pt(new double(k.tol));
+    try {
+        if (!k.guess) s.ret = (long) solver.compute(*pr, *pm, *pt);
+        else {
+            const Index g = k.G.cols();
+            if (k.view == 0 || k.view == 5) { std::unique_ptr<Mat> pg(new Mat(k.G)); try { s.ret = (long) solver.compute_with_guess(*pg, *pr, *pm, *pt); } catch (...) { pg->setConstant(cv); throw; } if (!same_bits(*pg, k.G)) viewfail = "owning guess matrix modified"; pg->setConstant(cv); pg.reset(); }
+            else if (k.view == 1 || k.view == 3) {
+                std::unique_ptr<Mat> big(new Mat(Mat::Constant(n + 5, g + 3, cv))); big->block(2, 1, n, g) = k.G;
+                auto chk = [&]() { for (Index j = 0; j < big->cols(); j++) for (Index i = 0; i < big->rows(); i++) { bool in = (i >= 2 && i < 2 + n && j >= 1 && j < 1 + g); uint64_t want = in ? dbits(k.G(i - 2, j - 1)) : CANARY; if (dbits((*big)(i, j)) != want) viewfail = std::string(in ? "viewed guess entry" : "canary next to the guess view") + " changed at (" + str(i) + "," + str(j) + ")"; } };
+                try {
+                    if (k.view == 1) s.ret = (long) solver.compute_with_guess(big->block(2, 1, n, g), *pr, *pm, *pt);
+                    else { const Eigen::Ref<const Mat> ref(big->block(2, 1, n, g)); s.ret = (long) solver.compute_with_guess(ref, *pr, *pm, *pt); }
+                } catch (...) { chk(); big->setConstant(cv); throw; }
+                chk(); big->setConstant(cv); big.reset();
+            } else {
+                const Index inner = (k.view == 4) ? 2 : 1, ld = inner * n + 3, off = 2;
+                std::unique_ptr<std::vector<double>> buf(new std::vector<double>((size_t) (off + ld * g + 4), cv));
+                typedef Eigen::Stride<Eigen::Dynamic, Eigen::Dynamic> St;
+                { Eigen::Map<Mat, 0, St> w(buf->data() + off, n, g, St(ld, inner)); w = k.G; }
+                std::vector<double> before(*buf);
+                auto chk = [&]() { for (size_t i = 0; i < buf->size(); i++) if (dbits((*buf)[i]) != dbits(before[i])) viewfail = "buffer under the strided guess Map changed at offset " + str(i); };
+                try {
+                    if (k.view == 2) { Eigen::Map<const Mat, 0, Eigen::OuterStride<>> m(buf->data() + off, n, g, Eigen::OuterStride<>(ld)); s.ret = (long) solver.compute_with_guess(m, *pr, *pm, *pt); }
+                    else { Eigen::Map<const Mat, 0, St> m(buf->data() + off, n, g, St(ld, inner)); s.ret = (long) solver.compute_with_guess(m, *pr, *pm, *pt); }
+                } catch (...) { chk(); std::fill(buf->begin(), buf->end(), cv); throw; }
+                chk(); std::fill(buf->begin(), buf->end(), cv); buf.reset();
+            }
+        }
+    } catch (const VhAssert& e) { s.threw = true; s.assert_fail = true; s.what = e.what(); }
+    catch (const std::exception& e) { s.threw = true; s.what = e.what(); }
+    *pr = SortRule::BothEnds; *pm = -5; *pt = cv; pr.reset(); pm.reset(); pt.reset();
+    take_state(solver, s);
+    try { s.evals = solver.eigenvalues(); s.evecs = solver.eigenvectors(); }
+    catch (const std::exception& e) { s.acc_threw = true; s.acc_what = e.what(); }
+    return s;
+}
+
+// accessors called three more times each, in random orders: every answer bit-identical to the first one
+template <class S>
+static std::string accessor_probe(const S& solver, Rng& r, const Snap& ref) {
+    if (ref.acc_threw) return "";
+    try {
+        for (int round = 0; round < 3; round++) {
+            int p[4] = {0, 1, 2, 3}; for (int i = 3; i > 0; i--) std::swap(p[i], p[r.below(i + 1)]);
+            for (int q = 0; q < 4; q++) switch (p[q]) {
+                case 0: { Vec e = solver.eigenvalues(); if (!same_bitsv(e, ref.evals)) return "eigenvalues() changed between two calls (round " + str(round) + ")"; break; }
+                case 1: { Mat v = solver.eigenvectors(); if (!same_bits(v, ref.evecs)) return "eigenvectors() changed between two calls (round " + str(round) + ")"; break; }
+                case 2: { if ((int) solver.info() != ref.info) return "info() changed between two calls (round " + str(round) + ")"; break; }
+                default: { if ((long) solver.num_iterations() != ref.niter) return "num_iterations() changed between two calls (round " + str(round) + ")"; break; }
+            }
+        }
+    } catch (const std::exception& e) { return std::string("accessor raised on a repeated call: ") + e.what(); }
+    return "";
+}
+
+template <class Op>
+static void history(Op& op, const Case& c, const Snap& fin, Out& out, uint64_t seed, const std::string& tier, bool corr) {
+    const int n = c.n; const long co = c.co, in = c.in, mx = c.mx;
+    Rng r(seed, 1520, (uint64_t) c.idx);
+    static const int rules[4] = {0, 3, 4, 7};
+    static const double tols[5] = {1e-5, 1e-6, 1e-7, 1e-8, 1e-10};
+    // ---- the calls: the case's own call first, then three more; the last one has maxit in {0, 1} (feeds the `recall` correspondence)
+    std::vector<Call> calls;
+    { Call k; k.guess = c.gkind != 0; k.rule = c.rule; k.maxit = c.maxit; k.tol = c.tol; k.G = c.G; k.gkind = c.gkind; k.view = k.guess ? (int) r.below(5) : 0; calls.push_back(k); }
+    const int nmore = 3;
+    for (int j = 0; j < nmore; j++) {
+        Call k; const Call& prev = calls.back();
+        k.rule = r.coin(0.75) ? rules[(std::find(rules, rules + 4, prev.rule) - rules + 1 + r.below(3)) % 4] : prev.rule;
+        { double u = r.unit(); k.maxit = u < 0.12 ? 0 : u < 0.27 ? 1 : u < 0.42 ? r.range(2, 3) : 100; }
+        k.tol = tols[r.below(5)];
+        if (j == nmore - 1) k.maxit = (c.idx + (long) r.below(2)) % 2 == 0 ? 0 : 1;
+        if (c.wide_guess > 0 && j == nmore - 1) { k.maxit = 100; k.guess = true; k.gkind = 1; k.view = 0; k.G = Mat::Identity(n, c.wide_guess); calls.push_back(k); continue; }
+        double u = r.unit();
+        if (u < 0.5) k.guess = false;
+        else {
+            k.guess = true; k.view = (int) r.below(5);
+            const long glo = std::max<long>(1, co), ghi = std::max<long>(glo, std::min<long>(mx, n - 1));
+            long g = std::min<long>(n - 1, std::max<long>(co, in)); if (r.coin(0.3)) g = r.range((int) glo, (int) ghi);
+            g = std::max<long>(glo, std::min<long>(g, std::max<long>(ghi, glo)));
+            if (u < 0.62 && c.gkind != 0 && c.G.cols() > 0) { k.G = c.G; k.gkind = c.gkind; }        // the case's own user space again
+            else if (c.structured) { Case t = c; t.gkind = u < 0.9 ? 1 : 2; k.G = make_struct_guess(r, t, (int) g); k.gkind = t.gkind; }
+            else { k.gkind = u < 0.9 ? 1 : 2; k.G = make_guess(r, k.gkind, n, (int) g); }
+        }
+        calls.push_back(k);
+    }
+    // ---- ONE object for the whole history
+    std::unique_ptr<Solver<Op>> sp;
+    try { sp = make_solver(op, c); } catch (const std::exception&) { return; }
+    Snap prevh; bool have_prev = false; std::string hist;
+    for (size_t j = 0; j < calls.size(); j++) {
+        const Call& k = calls[j];
+        Case cj = c; cj.rule = k.rule; cj.maxit = (int) k.maxit; cj.tol = k.tol; cj.gkind = k.guess ? k.gkind : 0; cj.G = k.guess ? k.G : Mat(n, 0);
+        hist += (j ? "; " : "") + call_text(k);
+        std::string viewfail;
+        Snap h = call_on(*sp, k, n, viewfail);
+        out.count("hist_calls"); out.count(std::string("hist_maxit_") + (k.maxit >= 4 ? std::string("100") : str(k.maxit))); if (k.guess) out.count(std::string("hist_guess_view_") + VW[k.view]); else out.count("hist_compute");
+        if (have_prev) { out.count(std::string("hist_after_info_") + str(prevh.info)); if (prevh.threw) out.count("hist_after_throw"); }
+        // the same call on a FRESH object, guess as an owning matrix (for the first call: the run one_case made through run_real)
+        Snap f = (j == 0) ? fin : run_real(op, cj, (int) k.maxit);
+        std::ostringstream ex; ex << ",\"reused_object\":" << (j ? 1 : 0) << ",\"history_call\":" << j << ",\"history\":\"" << jesc(hist) << "\",\"last_call_maxit\":" << k.maxit << ",\"guess_view\":\"" << (k.guess ? VW[k.view] : "none") << "\"";
+        if (!viewfail.empty()) { out.fail("guess-view-canary", viewfail + " by " + call_text(k), replay_json(cj, seed, tier, ex.str())); }
+        std::string d = snap_diff(h, f);
+        if (!d.empty()) {
+            // does the used object simply still hold what the PREVIOUS call on it left there?
+            bool stale = have_prev && h.info == prevh.info && (prevh.threw || h.ret == prevh.ret) && same_bitsv(h.evals, prevh.evals) && same_bits(h.evecs, prevh.evecs) && same_bitsv(h.th, prevh.th) && same_bits(h.X, prevh.X) && same_bits(h.R, prevh.R) && h.flags == prevh.flags;
+            std::ostringstream w; w << "call " << j << " of the history `" << hist << "` on ONE solver object" << ((k.guess && k.view != 0) ? std::string(" (guess handed over as a ") + VW[k.view] + " view)" : std::string("")) << " differs from the same call on a fresh object" << ((k.guess && k.view != 0) ? " given an owning matrix" : "") << " in " << d << " (" << CLS[c.cls] << " n=" << n << " nev=" << c.nev << "): used object info=" << h.info << " ret=" << h.ret << " niter=" << h.niter << " " << h.evals.size() << " eigenvalues" << (h.threw ? " raised " + h.what : std::string(""))
+              << "; fresh object info=" << f.info << " ret=" << f.ret << " niter=" << f.niter << " " << f.evals.size() << " eigenvalues" << (f.threw ? " raised " + f.what : std::string(""));
+            if (stale) { w << "; the used object still reports the results of the previous call";
+                if (h.info == 0 && !h.threw) { bool ord = true; for (Index q = 0; q + 1 < h.evals.size(); q++) if (rule_key(k.rule, h.evals[q]) > rule_key(k.rule, h.evals[q + 1])) ord = false; w << " as Successful" << (ord ? "" : ", not ordered by the rule of this call"); } }
+            ex << ",\"differs_in\":\"" << jesc(d) << "\",\"matches_previous_call\":" << (stale ? 1 : 0) << ",\"initial_space_gt_max\":" << ((k.guess ? (long) k.G.cols() : in) > mx ? 1 : 0) << ",\"both_raised_same\":" << ((h.threw && f.threw && h.what == f.what) ? 1 : 0) << ",\"raised\":\"" << jesc(h.threw ? h.what : std::string("")) << "\",\"fresh_raised\":\"" << jesc(f.threw ? f.what : std::string("")) << "\"";
+            out.fail("reuse-differs-from-fresh", w.str(), replay_json(cj, seed, tier, ex.str())); out.count("hist_differs_from_fresh"); if (stale) out.count("hist_stale_results");
+        } else {
+            out.count("hist_equal_fresh");
+            // the property's predicate for THIS call (j = 0 was judged by one_case); mechanism tags from prefix runs of this call, made only when a clause fails
+            if (j > 0 && oracle(cj, h, nullptr, seed, tier, false, false, true) > 0) { Scan sc = scan_prefix(op, cj, f); oracle(cj, h, &out, seed, tier, sc.zero_denom, sc.in_span, sc.block_ok, ex.str()); out.count("hist_oracle_failures"); }
+            else if (j > 0) { out.count("hist_oracle_runs"); if (h.info == 0) out.count("hist_oracle_successful"); }
+        }
+        std::string af = accessor_probe(*sp, r, h); out.count("acc_probes");
+        if (!af.empty()) out.fail("accessor-unstable", af + " after " + call_text(k) + " (history `" + hist + "`)", replay_json(cj, seed, tier, ex.str()));
+        // ---- correspondence: this call replayed in the model from the state the previous call left in the object
+        if (corr && j > 0 && k.maxit <= 1 && have_prev && !prevh.threw && !h.threw && n <= 16 && (k.guess ? (long) k.G.cols() : in) <= mx && prevh.th.allFinite() && h.th.allFinite()
+            && all_finite(prevh.B) && all_finite(prevh.W) && all_finite(prevh.X) && all_finite(prevh.R) && prevh.X.cols() == prevh.th.size() && prevh.R.cols() == prevh.th.size() && all_finite(h.W) && all_finite(h.Y) && all_finite(h.R)) {
+            std::ostringstream rq, rs;
+            rq << "recall " << n << " " << c.nev << " " << mx << " " << in << " " << co << " " << k.rule << " " << k.maxit << " " << dbits(k.tol) << " " << prevh.info << " " << prevh.niter
+               << " " << prevh.B.cols() << bits(prevh.B) << " " << prevh.W.cols() << bits(prevh.W) << " " << prevh.th.size() << bitsv(prevh.th) << bits(prevh.X) << bits(prevh.R) << " " << prevh.flags.size(); for (int fl : prevh.flags) rq << " " << fl;
+            rq << bits(c.A) << " " << (k.guess ? k.G.cols() : 0); if (k.guess) rq << bits(k.G);
+            if (k.maxit == 0) rq << " 1 0"; else rq << " 1 " << h.th.size() << bitsv(h.th) << bits(h.Y);
+            rs << h.info << " " << h.niter << " " << h.ret << " " << h.flags.size(); for (int fl : h.flags) rs << " " << fl;
+            rs << " " << h.evals.size(); for (Index q = 0; q < h.evals.size(); q++) rs << " " << dbits(h.evals[q]);
+            rs << " 1 |"; for (Index q = 0; q < h.R.cols(); q++) rs << " " << dbits(h.R.col(q).norm()); rs << " |" << bits(h.W);
+            out.corr(rq.str(), rs.str()); out.count(k.maxit == 0 ? "recall_maxit0" : "recall_maxit1");
+        }
+        prevh = h; have_prev = true;
+    }
+}
+
+// the operator's matrix handed to the wrapper as a view (blind spot 2): same call on a fresh solver, bitwise equal to the owning-matrix run
+template <class Op>
+static void view_check(Op& opv, const Case& c, const Snap& fin, const char* shape, Out& out, uint64_t seed, const std::string& tier) {
+    Snap v = run_real(opv, c, c.maxit); out.count(std::string("view_op_") + shape);
+    std::string d = snap_diff(v, fin);
+    if (!d.empty()) { std::ostringstream w, ex; w << "operator built on a " << shape << " of the matrix: result differs from the owning-matrix run in " << d << " (" << CLS[c.cls] << "/" << GK[c.gkind] << "/" << RN[c.rule] << " n=" << c.n << " nev=" << c.nev << "): info " << v.info << " vs " << fin.info << ", niter " << v.niter << " vs " << fin.niter;
+        ex << ",\"operator_view\":\"" << shape << "\",\"differs_in\":\"" << jesc(d) << "\""; out.fail("operator-view-differs", w.str(), replay_json(c, seed, tier, ex.str())); }
+}
+
+template <class Op>
+static Snap one_case(Op& op, Case& c, Out& out, uint64_t seed, const std::string& tier, bool corr) {
+    const int n = c.n;
+    // ---- constructor: sizes (exact correspondence with Gen.JD / Gen.Guard)
+    long mx = -1, in = -1, co = -1; bool ctor_threw = false;
+    try {
+        auto sp = make_solver(op, c);
+        mx = AX::maxsz(*sp); in = AX::initsz(*sp); co = AX::corrsz(*sp);
+    } catch (const std::invalid_argument&) { ctor_threw = true; }
+    c.mx = mx; c.in = in; c.co = co;
+    if (corr) out.corr("sizes " + str(n) + " " + str(c.nev) + " " + str(c.nvec_init) + " " + str(c.nvec_max), ctor_threw ? "throw" : "ok " + str(mx) + " " + str(in) + " " + str(co));
+    if (ctor_threw) { out.count("ctor_throw"); Snap s; s.threw = true; s.what = "ctor"; return s; }
+    if (in + co > n || mx > n || in < 1 || co < 1) { std::ostringstream ex; ex << ",\"max\":" << mx << ",\"init\":" << in << ",\"corr\":" << co; if (in < 1 || co < 1 || in + co > n) out.fail("sizes-guard", "constructor leaves sizes init=" + str(in) + " corr=" + str(co) + " max=" + str(mx) + " for n=" + str(n), replay_json(c, seed, tier, ex.str())); }
+    // ---- initial space supplied by the caller
+    if (c.gkind != 0) { Rng rg(seed, 1515, (uint64_t) c.idx); int g = (int) std::min<long>(n - 1, std::max<long>(co, in)); if (c.gkind == 3 && g < 2) c.gkind = 2; c.G = c.structured ? make_struct_guess(rg, c, g) : make_guess(rg, c.gkind, n, g); }
+    out.count(std::string("cls_") + CLS[c.cls]); out.count(std::string("guess_") + GK[c.gkind]); out.count(std::string("rule_") + RN[c.rule]); out.count(c.sparse ? "op_sparse" : "op_dense");
+    if (c.edge) { out.count("edge_cases"); out.count(c.nev == 1 ? "edge_nev_1" : "edge_nev_n-1"); out.count("edge_maxit_" + str(c.maxit)); out.count(c.two_arg ? "edge_sizes_2arg" : (c.nvec_max == c.nvec_init ? "edge_sizes_init=max=nev" : "edge_sizes_max=nev+corr")); }
+    // ---- the full run
+    Snap fin = run_real(op, c, c.maxit);
+    if (fin.niter >= 0) out.count(fin.niter == 0 ? "iters_0" : fin.niter < 5 ? "iters_1_4" : fin.niter < 20 ? "iters_5_19" : "iters_20+");
+    // ---- prefix runs (maxit = 1, 2, ...): per-iteration states through the REAL loop; detect restarts and exact zero denominators
+    Scan sc = scan_prefix(op, c, fin);
+    std::vector<Snap>& pre = sc.pre; const bool zero_denom = sc.zero_denom, in_span = sc.in_span, block_ok = sc.block_ok;
+    Vec diag = c.A.diagonal();
+    if (sc.any_restart) out.count("runs_with_restart"); if (sc.space_full) out.count("runs_space_reaches_n"); if (zero_denom) out.count("runs_zero_denominator");
     if (in_span) out.count("runs_correction_in_span");
     if (c.structured) { out.count("struct_cases"); if (in_span) out.count("struct_dependent_block_seen"); if (fin.info == 0) out.count("struct_successful"); }
-    if (!block_ok) { std::ostringstream w, ex; w << "extend_basis appended a block that is not a Householder Q factor (" << block_what << ") in iteration " << block_iter << " on " << CLS[c.cls] << "/" << GK[c.gkind] << "/" << RN[c.rule] << " n=" << n << " nev=" << c.nev << " (final info=" << fin.info << ")";
-        ex << ",\"zero_denominator_seen\":" << (zero_denom ? 1 : 0) << ",\"degenerate_correction_seen\":" << (in_span ? 1 : 0) << ",\"extension_block_orthonormal\":0,\"iteration\":" << block_iter;
+    if (!block_ok) { std::ostringstream w, ex; w << "extend_basis appended a block that is not a Householder Q factor (" << sc.block_what << ") in iteration " << sc.block_iter << " on " << CLS[c.cls] << "/" << GK[c.gkind] << "/" << RN[c.rule] << " n=" << n << " nev=" << c.nev << " (final info=" << fin.info << ")";
+        ex << ",\"zero_denominator_seen\":" << (zero_denom ? 1 : 0) << ",\"degenerate_correction_seen\":" << (in_span ? 1 : 0) << ",\"extension_block_orthonormal\":0,\"iteration\":" << sc.block_iter;
         out.fail("extension-block-not-orthonormal", w.str(), replay_json(c, seed, tier, ex.str())); out.count("oracle_block_dev"); }
     // specification of extend_basis / restart on the real code: an orthonormal initial space stays orthonormal
     { LD g0 = 0; if (c.gkind != 0) g0 = (LD) (c.G.transpose() * c.G - Mat::Identity(c.G.cols(), c.G.cols())).cwiseAbs().maxCoeff();
@@ -334,8 +599,8 @@ static void one_case(Op& op, Case& c, Out& out, uint64_t seed, const std::string
           if (!(dev <= 1e-8)) { std::ostringstream w, ex; w << "search-space basis lost orthonormality: max|V^T V - I| = " << dev << " at iteration " << k << " (size " << B.cols() << ") although the initial space was orthonormal, on " << CLS[c.cls] << "/" << GK[c.gkind] << " n=" << n << " nev=" << c.nev;
               ex << ",\"guess_orthonormal\":1,\"zero_denominator_seen\":" << (zero_denom ? 1 : 0) << ",\"degenerate_correction_seen\":" << (in_span ? 1 : 0) << ",\"extension_block_orthonormal\":" << (block_ok ? 1 : 0) << ",\"iteration\":" << k;
               out.fail("basis-not-orthonormal", w.str(), replay_json(c, seed, tier, ex.str())); out.count("oracle_basis_dev"); break; } } }
-    oracle(c, fin, out, seed, tier, zero_denom, in_span, block_ok);
-    if (!corr) return;
+    oracle(c, fin, &out, seed, tier, zero_denom, in_span, block_ok);
+    if (!corr) return fin;
     // ---- correspondence: kernels that are explicit scalar code (bit-exact): DPR correction, initial space from the sorted diagonal
     auto nb = [](double x) { return std::isnan(x) ? std::string("nan") : str(dbits(x)); };
     { std::ostringstream rq, rs; rq << "initspace " << n << " " << in << " " << c.rule << bitsv(diag);
@@ -366,19 +631,51 @@ static void one_case(Op& op, Case& c, Out& out, uint64_t seed, const std::string
         out.corr(rq.str(), rs.str()); nsteps++; out.count(restart ? "step_restart" : "step_plain");
     }
     // ---- correspondence: full run with the model's own kernels (generic classes only: distinct, separated spectrum)
-    bool generic = (c.cls == 0 || c.cls == 1) && (c.gkind == 0 || c.gkind == 1) && !fin.threw && !zero_denom && n <= 24 && all_finite(fin.X);
+    bool generic = (c.cls == 0 || c.cls == 1) && (c.gkind == 0 || c.gkind == 1) && !fin.threw && !zero_denom && n <= 24 && all_finite(fin.X) && c.maxit >= 1;
     if (generic) {
         std::ostringstream rq; rq << "run " << n << " " << c.nev << " " << c.nvec_init << " " << c.nvec_max << " " << c.rule << " " << c.maxit << " " << dbits(c.tol) << " " << c.G.cols() << bits(c.A) << bits(c.G);
         std::ostringstream rs; rs << fin.info << " " << fin.ret << " " << fin.niter << " " << pre.size(); for (auto& p : pre) rs << " " << p.B.cols();
         long ne = std::min<long>(c.nev, fin.th.size()); rs << " " << ne; for (long i = 0; i < ne; i++) rs << " " << dbits(fin.th[i]);
         out.corr(rq.str(), rs.str()); out.count("run_requests");
     }
+    return fin;
 }
 
 static void do_case(Case& c, Out& out, uint64_t seed, const std::string& tier, bool corr) {
     { std::ofstream lc(out.dir + "/lastcase.txt"); lc << replay_json(c, seed, tier); }
-    if (c.sparse) { Eigen::SparseMatrix<double> S = c.A.sparseView(); S.makeCompressed(); Spectra::SparseSymMatProd<double> op(S); one_case(op, c, out, seed, tier, corr); }
-    else { Spectra::DenseSymMatProd<double> op(c.A); one_case(op, c, out, seed, tier, corr); }
+    const int n = c.n; const double cv = bitsd(CANARY);
+    if (c.sparse) {
+        typedef Eigen::SparseMatrix<double> SpM; typedef Spectra::SparseSymMatProd<double> Op;
+        SpM S = c.A.sparseView(); S.makeCompressed(); Op op(S); Snap fin = one_case(op, c, out, seed, tier, corr);
+        if (fin.threw && fin.what == "ctor") return;
+        history(op, c, fin, out, seed, tier, corr);
+        // the same compressed arrays inside larger caller-owned buffers (canaries around them), viewed through a Map
+        { const Index nnz = S.nonZeros(); std::vector<int> outer(n + 1 + 4, -12345), inner((size_t) nnz + 4, -12345); std::vector<double> val((size_t) nnz + 4, cv);
+          for (int j = 0; j <= n; j++) outer[2 + j] = S.outerIndexPtr()[j]; for (Index q = 0; q < nnz; q++) { inner[2 + q] = S.innerIndexPtr()[q]; val[2 + q] = S.valuePtr()[q]; }
+          std::vector<int> outer0(outer), inner0(inner); std::vector<double> val0(val);
+          { Eigen::Map<const SpM> M(n, n, nnz, outer.data() + 2, inner.data() + 2, val.data() + 2); Op opv(M); view_check(opv, c, fin, "sparse_map", out, seed, tier); }
+          bool same = outer == outer0 && inner == inner0; for (size_t q = 0; q < val.size(); q++) if (dbits(val[q]) != dbits(val0[q])) same = false;
+          if (!same) out.fail("operator-view-canary", "arrays under the sparse Map (or the canaries around them) were modified", replay_json(c, seed, tier, ",\"operator_view\":\"sparse_map\"")); }
+        // uncompressed storage (room left in every column): Ref<const SparseMatrix> takes it as it is
+        { SpM U(n, n); U.reserve(Eigen::VectorXi::Constant(n, n)); for (int j = 0; j < S.outerSize(); j++) for (SpM::InnerIterator it(S, j); it; ++it) U.insert(it.row(), it.col()) = it.value();
+          if (!U.isCompressed()) { Op opv(U); view_check(opv, c, fin, "sparse_uncompressed", out, seed, tier); } }
+    } else {
+        typedef Spectra::DenseSymMatProd<double> Op;
+        Op op(c.A); Snap fin = one_case(op, c, out, seed, tier, corr);
+        if (fin.threw && fin.what == "ctor") return;
+        history(op, c, fin, out, seed, tier, corr);
+        // block of a larger matrix: canaries around it, and the strictly upper triangle (never read with Uplo = Lower) poisoned
+        { Mat big = Mat::Constant(n + 4, n + 6, cv); for (int j = 0; j < n; j++) for (int i = j; i < n; i++) big(1 + i, 3 + j) = c.A(i, j);
+          Mat big0 = big;
+          { Op opv(big.block(1, 3, n, n)); view_check(opv, c, fin, "dense_block_upper_poisoned", out, seed, tier); }
+          if (!same_bits(big, big0)) out.fail("operator-view-canary", "matrix under the operator's block view (or the canaries around it) was modified", replay_json(c, seed, tier, ",\"operator_view\":\"dense_block\"")); }
+        // Map with an outer stride over a caller-owned buffer
+        { const Index ld = n + 3; std::vector<double> buf((size_t) (2 + ld * n + 3), cv); { Eigen::Map<Mat, 0, Eigen::OuterStride<>> w(buf.data() + 2, n, n, Eigen::OuterStride<>(ld)); w = c.A; }
+          std::vector<double> buf0(buf);
+          { Eigen::Map<const Mat, 0, Eigen::OuterStride<>> M(buf.data() + 2, n, n, Eigen::OuterStride<>(ld)); Op opv(M); view_check(opv, c, fin, "dense_map_outer_stride", out, seed, tier); }
+          bool same = true; for (size_t q = 0; q < buf.size(); q++) if (dbits(buf[q]) != dbits(buf0[q])) same = false;
+          if (!same) out.fail("operator-view-canary", "buffer under the operator's strided Map (or the canaries around it) was modified", replay_json(c, seed, tier, ",\"operator_view\":\"dense_map_outer_stride\"")); }
+    }
 }
 
 // fixed regression inputs (always run first)
@@ -393,6 +690,8 @@ static std::vector<Case> corpus() {
       for (int i = 0; i < 12; i++) for (int j = 0; j < 12; j++) c.A(i, j) = (i == j) ? i + 1.0 : 0.01; c.two_arg = true; c.nvec_init = 4; c.nvec_max = 20; c.gkind = 2; c.G = Mat(12, 0); v.push_back(c); }
     { Case c; c.idx = -4; c.cls = 0; c.n = 12; c.nev = 2; c.rule = 7; c.tol = 1e-8; c.A = Mat::Zero(12, 12);    // restarts forced by a small maximum
       for (int i = 0; i < 12; i++) for (int j = 0; j < 12; j++) c.A(i, j) = (i == j) ? i + 1.0 : 0.3 / (1.0 + std::abs(i - j)); c.two_arg = false; c.nvec_init = 3; c.nvec_max = 6; c.G = Mat(12, 0); v.push_back(c); }
+    { Case c; c.idx = -5; c.cls = 0; c.n = 12; c.nev = 1; c.rule = 3; c.tol = 1e-8; c.A = Mat::Zero(12, 12);    // F21b: a user space wider than the maximum on a USED object restarts from the previous call's Ritz pairs
+      for (int i = 0; i < 12; i++) for (int j = 0; j < 12; j++) c.A(i, j) = (i == j) ? i + 1.0 : 0.05 / (1.0 + std::abs(i - j)); c.two_arg = false; c.nvec_init = 2; c.nvec_max = 4; c.wide_guess = 6; c.G = Mat(12, 0); v.push_back(c); }
     return v;
 }
 
@@ -402,7 +701,7 @@ int main(int argc, char** argv) {
         std::ifstream f(a.replay); std::string t((std::istreambuf_iterator<char>(f)), {});
         auto num = [&](const char* key, long dflt) { auto p = t.find(std::string("\"") + key + "\":"); return p == std::string::npos ? dflt : std::atol(t.c_str() + p + std::strlen(key) + 3); };
         long idx = num("idx", 0); uint64_t sd = (uint64_t) num("seed", (long) a.seed); bool th = t.find("\"tier\":\"thorough\"") != std::string::npos;
-        Case c; if (idx < 0) { auto v = corpus(); c = v[(size_t) (-idx - 1)]; } else if (idx >= STRUCT_BASE) c = gen_struct_case(sd, idx - STRUCT_BASE, th); else c = gen_case(sd, idx, th);
+        Case c; if (idx < 0) { auto v = corpus(); c = v[(size_t) (-idx - 1)]; } else if (idx >= EDGE_BASE) c = gen_edge_case(sd, idx - EDGE_BASE, th); else if (idx >= STRUCT_BASE) c = gen_struct_case(sd, idx - STRUCT_BASE, th); else c = gen_case(sd, idx, th);
         do_case(c, out, sd, th ? "thorough" : "quick", false); out.finish(); return out.nfail ? 1 : 0;
     }
     for (auto& c0 : corpus()) { Case c = c0; do_case(c, out, a.seed, a.tier, true); }
@@ -410,6 +709,8 @@ int main(int argc, char** argv) {
     for (long i = 0; i < ncases; i++) { Case c = gen_case(a.seed, i, a.thorough()); do_case(c, out, a.seed, a.tier, true); out.count("cases"); }
     long nstruct = a.thorough() ? 480 : 48;     // structured share: dependent DPR correction blocks (one full period of kind x rule x definiteness per 48)
     for (long i = 0; i < nstruct; i++) { Case c = gen_struct_case(a.seed, i, a.thorough()); do_case(c, out, a.seed, a.tier, true); out.count("cases"); }
+    long nedge = a.thorough() ? 360 : 72;       // edge share: one full period of rule x nev in {1, n-1} x maxit in {0, 1, 100} x sizes per 72
+    for (long i = 0; i < nedge; i++) { Case c = gen_edge_case(a.seed, i, a.thorough()); do_case(c, out, a.seed, a.tier, true); out.count("cases"); }
     out.finish();
     return 0;
 }
